@@ -567,7 +567,7 @@ def r_chunk(F, R, cat=None):
             if not ok:
                 need = lin_sub(rem, nlin_)  # must be >= 0
                 for f in facts_at(e.ctx, e.bb):
-                    if f[0] not in ("Ge", "Gt", "Le", "Lt") or not fact_holds_(e.ctx, f, e.bb):
+                    if f[0] not in ("Ge", "Gt", "Le", "Lt") or not fact_holds_(e.ctx, f, e.bb, e.term):
                         continue
                     op, x, y = f[0], nobb(f[1]), nobb(f[2])
                     if op in ("Le", "Lt"):
@@ -595,6 +595,6 @@ def r_chunk(F, R, cat=None):
     R.floor("R-CHUNK", "cursor advances in BitIterator::next", n_sites, 1)
 
 
-def fact_holds_(ctx, f, bb):
+def fact_holds_(ctx, f, bb, at_stmt=None):
     from expr import fact_still_holds
-    return fact_still_holds(ctx, f, bb)
+    return fact_still_holds(ctx, f, bb, ignore=at_stmt if isinstance(at_stmt, dict) and at_stmt.get("k") == "assign" else None)
